@@ -114,14 +114,14 @@ def check_get_offsets(ctx, db):
             elif kind in ('ExplicitX', 'ExplicitY'):
                 st = cstores(stmts)
                 L = next((x for s in stmts for x in s.walk() if x.k == 'ForStmt'), None)
-                pre = [x for x in st if L is None or x.id < L.id]
+                pre = [x for x in st if L is None or x.pos < L.pos]
                 okz = len(pre) == 2 and all(zero_at(x.child('rhs'), set(), f) for x in pre)
                 ctx.check(okz, 'R-ZEROFIRST', key, loc, 'an explicit zero pair is written before the listed coordinates')
                 ok = L is not None
                 if ok:
                     iv = next((v for v in L.child('init').walk() if v.k == 'VarDecl'), None)
                     c = L.child('cond')
-                    inl = [x for x in st if x.id > L.id]
+                    inl = [x for x in st if x.pos > L.pos]
                     ok = iv.child('init').cv == 1 and c.op == '<' and c.child('rhs').text() == 'count' and len(inl) == 2
                     # exactly one of the two stores per iteration is the coordinate, the other is 0, on the right axis
                     vals_ = [zero_at(x.child('rhs'), set(), f) for x in inl]
@@ -231,8 +231,8 @@ def check_get_extrema(ctx, db):
                 continue
             apps = [x for s in stmts for x in s.walk() if x.k == 'CXXMemberCallExpr' and (x.callee or '').split('::')[-1] in ('append', 'append_unsafe')]
             rets = [x for s in stmts for x in s.walk() if x.k == 'ReturnStmt']
-            first = min([a.id for a in apps] + [10 ** 9])
-            ctx.check(bool(apps) and not any(r.id < first for r in rets), 'R-COUNT', 'Repetition::get_extrema/%s/never-empty' % kind, top.loc(),
+            first = min([a.pos for a in apps] + [10 ** 9])
+            ctx.check(bool(apps) and not any(r.pos < first for r in rets), 'R-COUNT', 'Repetition::get_extrema/%s/never-empty' % kind, top.loc(),
                       'every path through the arm appends at least one extreme (an empty list denotes the zero vector alone)',
                       'the arm can return without appending any extreme although the repetition denotes at least the zero vector')
     k, roles = minmax.check_minmax(ctx, f, label='Repetition::get_extrema')
@@ -289,7 +289,7 @@ def check_apply_repetition(ctx, db):
         ctx.check(bool(cl) and path is None, 'R-MUSTPASS', key + '/clears-original', f.loc(), 'every path on which the element had a repetition passes through repetition.clear(): the original keeps none',
                   'a path reaches the end of the function without repetition.clear() although the element had a repetition (%s): the original keeps it and is expanded again' % (g.describe_path(path) if path else 'no clear() call'),
                   path=g.describe_path(path) if path else None)
-        ok = bool(cl) and all(go.id < cl[0].id < cp.id and g.node_dominates(cl[0], cp) for cp in cps)
+        ok = bool(cl) and all(go.pos < cl[0].pos < cp.pos and g.node_dominates(cl[0], cp) for cp in cps)
         ctx.check(ok, 'R-PAIRCALL', key + '/clear-before-copy', f.loc(), 'offsets are taken, then the repetition is cleared on every path before any copy is made (copies carry none; the original keeps none)',
                   'repetition.clear() does not dominate the copies (or does not follow get_offsets): copies would carry the repetition / the original keeps it on some path')
         # the copy loop
@@ -407,8 +407,11 @@ def check_transform(ctx, db):
                     writes_data = False
                     for x in s.walk():
                         if is_assign(x):
-                            lk = x.child('lhs').text()
-                            if re.search(r'this->(spacing|v1|v2|offsets|coords|type)|\*v|v->|\*c|\(\*\(c\+\+\)\)|\(c\+\+\)', lk) or x.child('lhs').k == 'UnaryOperator':
+                            # a store into anything but a plain scalar local: a member of the repetition, an element of a list (through
+                            # a cursor, an index or Array::operator[]), a local vector or scratch array
+                            l0 = _strip_casts(x.child('lhs'))
+                            plain = l0 is not None and l0.k == 'DeclRefExpr' and l0.dk in ('local', 'param') and (l0.ct or l0.t or '').replace('const ', '').strip() in ('double', 'bool', 'uint64_t', 'int64_t', 'int', 'unsigned long', 'long')
+                            if not plain:
                                 writes_data = True
                     if not writes_data:
                         continue
@@ -441,7 +444,7 @@ def check_transform(ctx, db):
                 ok = len(st) == 1 and st[0].child('rhs').text().endswith('::Explicit') and any(a.k == 'IfStmt' and cond_norm(a.child('cond')) == 'rotation != 0' for a in st[0].ancestors())
                 sto = [x for s in stmts for x in s.walk() if is_assign(x) and x.child('lhs').text() == 'this->offsets']
                 clr = [x for s in stmts for x in s.walk() if x.k == 'CXXMemberCallExpr' and x.text() == 'this->coords.clear()']
-                ok = ok and len(sto) == 1 and len(clr) == 1 and clr[0].id < st[0].id < sto[0].id
+                ok = ok and len(sto) == 1 and len(clr) == 1 and clr[0].pos < st[0].pos < sto[0].pos
                 ctx.check(ok, 'R-TAGUNION', 'Repetition::transform/%s->Explicit' % kind, top.loc(), '%s becomes Explicit exactly when rotated: coords cleared, tag stored, then offsets stored' % kind)
     ctx.require('R-DEP (kind, parameter, valuation) obligations', n, 50)
 
@@ -462,23 +465,39 @@ def check_transform_algebra(ctx, db):
     names = {v: k for k, v in vals.items()}
     sw = tables.switches_on(f, 'RepetitionType')[0]
 
+    def elem_of(e):
+        """the generic element an access designates, by element type and in any form (`*p`, `*p++`, `p[i]`, `arr[i]`, `arr.items[i]`):
+        '*c' for an element of a coordinate list (double), '*v' for an element of a vector list (Vec2); None for anything else"""
+        e0 = _strip_casts(e)
+        if e0 is None:
+            return None
+        is_elem = (e0.k == 'UnaryOperator' and e0.op == '*') or e0.k == 'ArraySubscriptExpr' or (e0.k == 'CXXOperatorCallExpr' and e0.op == '[]')
+        if not is_elem:
+            return None
+        t = (e0.ct or e0.t or '').replace('const ', '').replace('gdstk::', '').replace('&', '').strip()
+        if t == 'double':
+            return '*c'
+        if t == 'Vec2':
+            return '*v'
+        return None
+
     class A(S.Algebra):
         def value(self, e, env):
             e0 = _strip_casts(e)
-            if e0 is not None and e0.k == 'UnaryOperator' and e0.op == '*':
-                sub = _strip_casts(e0.child('sub'))
-                while sub.k == 'UnaryOperator' and sub.op in ('post++', '++'):
-                    sub = _strip_casts(sub.child('sub'))
-                if sub.k == 'DeclRefExpr' and ('*' + sub.n) in env:
-                    return env['*' + sub.n]
+            k_ = elem_of(e0)
+            if k_ is not None and k_ in env:
+                return env[k_]
             if e0 is not None and e0.k == 'MemberExpr' and e0.n:
                 arrow = bool(e0.arrow)
                 b = _strip_casts(e0.child('base')) if e0.child('base') is not None else None
                 while b is not None and b.k == 'MemberExpr' and not b.n:
                     arrow = arrow or bool(b.arrow)
                     b = _strip_casts(b.child('base')) if b.child('base') is not None else None
-                if arrow and b is not None and b.k == 'DeclRefExpr' and ('*' + b.n) in env:
-                    v = env['*' + b.n]
+                kb = elem_of(b) if not arrow else None
+                if arrow and b is not None and 'Vec2' in (b.t or '') + (b.ct or '') and '*v' in env:
+                    kb = '*v'
+                if kb == '*v' and '*v' in env:
+                    v = env['*v']
                     return v[1] if e0.n in ('x', 'u', 're') else v[2]
             return S.Algebra.value(self, e, env)
 
@@ -487,12 +506,9 @@ def check_transform_algebra(ctx, db):
         l = _strip_casts(lhs)
         if l.k == 'DeclRefExpr':
             return l.n, None
-        if l.k == 'UnaryOperator' and l.op == '*':
-            sub = _strip_casts(l.child('sub'))
-            while sub.k == 'UnaryOperator' and sub.op in ('post++', '++'):
-                sub = _strip_casts(sub.child('sub'))
-            if sub.k == 'DeclRefExpr':
-                return '*' + sub.n, None
+        k_ = elem_of(l)
+        if k_ is not None:
+            return k_, None
         if l.k == 'MemberExpr':
             arrow = bool(l.arrow)
             b = _strip_casts(l.child('base')) if l.child('base') is not None else None
@@ -502,6 +518,10 @@ def check_transform_algebra(ctx, db):
             comp = {'x': 1, 'u': 1, 're': 1, 'y': 2, 'v': 2, 'im': 2}.get(l.n)
             if b is None or b.k == 'CXXThisExpr':
                 return l.n, None
+            if comp and not arrow and elem_of(b) == '*v':
+                return '*v', comp
+            if comp and arrow and 'Vec2' in (b.t or '') + (b.ct or ''):
+                return '*v', comp
             if comp and b.k == 'DeclRefExpr':
                 return ('*' + b.n) if arrow else b.n, comp
             if comp and b.k == 'MemberExpr':
